@@ -33,7 +33,10 @@ EXHAUSTIVE_NOTE = {"quick": "every single-preemption schedule of pair (col_a, co
                    "thorough": "every single-preemption schedule of 5 pairs, both directions"}
 
 PAIRS = [("col_a", "col_b"), ("pal12_a", "pal12_b"), ("col_a", "multi_a"), ("figure", "col_b"), ("pageby", "multi_b"),
-         ("raising", "col_a"), ("bcol_a", "bcol_b"), ("paged_s8", "paged_s14")]
+         ("raising", "col_a"), ("bcol_a", "bcol_b"), ("paged_s8", "paged_s14"), ("blk_a", "col_b")]
+# double preemptions on a grid: thread 0 is left at its k1-th boundary, thread 1 at its k2-th, then thread 0
+# runs to its end before thread 1 resumes (and the mirror image)
+GRID_PAIRS = [("blk_a", "col_b"), ("col_a", "col_b"), ("pal12_a", "blk_a")]
 TRIPLES = [("col_a", "col_b", "multi_a"), ("figure", "pageby", "col_b"), ("col_a", "raising", "multi_b")]
 
 
@@ -54,6 +57,10 @@ def plan(tier, seed):
     for pair in cold:
         for i in range(5):
             descs.append({"kind": "cold", "docs": list(pair), "lo": i, "step": 5, "timeout": 1800})
+    g = 12 if tier == "quick" else 40
+    for pair in (GRID_PAIRS[:2] if tier == "quick" else GRID_PAIRS):
+        for i in range(4):
+            descs.append({"kind": "grid", "docs": list(pair), "g": g, "lo": i, "step": 4, "timeout": 1800})
     nrand = 400 if tier == "quick" else 20000
     for i in range(4 if tier == "quick" else 16):
         descs.append({"kind": "sampled", "n": nrand // (4 if tier == "quick" else 16), "timeout": 1800})
@@ -308,6 +315,22 @@ def run_shard(desc, ctx):
             if desc["lo"] == 0:
                 ctx.count("boundaries_thread0", env.nb[names[0]])
                 ctx.count("boundaries_thread1", env.nb[names[1]])
+        elif desc["kind"] == "grid":
+            names = desc["docs"]
+            env.prepare(names)
+            g = desc["g"]
+            n0, n1 = env.nb[names[0]], env.nb[names[1]]
+            # boundaries are denser where the shared colour state is touched: the first tenth of an encode
+            # gets half of the grid points
+            def pts(n):
+                early = [max(1, round(n * 0.1 * (i + 1) / (g // 2))) for i in range(g // 2)]
+                late = [max(1, round(n * (0.1 + 0.9 * (i + 1) / (g - g // 2 + 1)))) for i in range(g - g // 2)]
+                return sorted(set(early + late))
+            jobs = [(me, k1, k2) for me in (0, 1) for k1 in pts(n0 if me == 0 else n1)
+                    for k2 in pts(n1 if me == 0 else n0)]
+            for me, k1, k2 in jobs[desc["lo"]::desc["step"]]:
+                ctx.count("double_preemption_grid_schedules")
+                run_schedule(ctx, env, names, {me: {k1: 1 - me}, 1 - me: {k2: me}}, me, "two preemptions (grid)")
         else:
             for _ in range(desc["n"]):
                 if rng.random() < 0.5:
